@@ -504,7 +504,7 @@ func main() {
 	}
 
 	// ---- probes: which of the known defects does this tree have?
-	vPrefix, vZero, vCreate := probes(e, newHist)
+	vPrefix, vZero, vCreate, vStale := probes(e, newHist)
 
 	var coq []string
 	var js []jcase
@@ -595,7 +595,7 @@ func main() {
 		f.WriteString(fmt.Sprintf("Definition U%d : string := %s.\n", i, hx.Str(u)))
 	}
 	f.WriteString("Definition users : list string := [U0; U1; U2; U3; U4].\n")
-	f.WriteString(fmt.Sprintf("Definition tree : variant := mkVariant %s %s %s.\n", hx.B(vPrefix), hx.B(vZero), hx.B(vCreate)))
+	f.WriteString(fmt.Sprintf("Definition tree : variant := mkVariant %s %s %s %s.\n", hx.B(vPrefix), hx.B(vZero), hx.B(vCreate), hx.B(vStale)))
 	out.WriteFile("pre.v", f.String())
 	out.WriteFile("cases.txt", strings.Join(coq, "\n")+"\n")
 	out.WriteJSON("meta.json", map[string]string{"case_type": "c20_case", "mismatch_fn": "c20_mismatches tree users", "violation_fn": "c20_violations users"})
@@ -605,7 +605,7 @@ func main() {
 		steps += len(j.Steps)
 	}
 	out.WriteJSON("dist.json", map[string]interface{}{"seed": seed, "histories": len(js), "steps": steps, "by_kind": dist,
-		"variant": map[string]bool{"prefix_iteration": vPrefix, "zero_record_blocks_refund": vZero, "creation_bond_unchecked": vCreate}, "users": e.ustr})
+		"variant": map[string]bool{"prefix_iteration": vPrefix, "zero_record_blocks_refund": vZero, "creation_bond_unchecked": vCreate, "convert_swaps_into_stale_record": vStale}, "users": e.ustr})
 	fmt.Fprintf(os.Stderr, "c20: %d histories, %d steps\n", len(js), steps)
 }
 
@@ -652,7 +652,7 @@ func (h *hist) keeperOps(r *hx.Rng, names []string) {
 		u := r.Intn(3)
 		den := h.lpDenom(n)
 		fee := fees[r.Intn(len(fees))]
-		switch r.Intn(12) {
+		switch r.Intn(14) {
 		case 0, 1, 2:
 			h.kswap(u, n, false, []int64{1, 1, 2, 3, 1000, 250000, 7777777}[r.Intn(7)], fee)
 		case 3, 4, 5:
@@ -698,16 +698,24 @@ func (h *hist) keeperOps(r *hx.Rng, names []string) {
 			if b := h.lpBal(u, den); b > 0 {
 				h.kredeem(u, n, den, b, "0")
 			}
-		default:
+		case 11:
 			for j := 0; j < 3; j++ {
 				h.kredeem(u, n, den, 1, "0")
+			}
+		default: // several larger redemptions and swaps in a row on the same dApp, record re-read each time
+			for j := 0; j < 2+r.Intn(3); j++ {
+				if b := h.lpBal(u, den); b > 3 {
+					h.kredeem(u, n, den, r.Range(1, b/3), fee)
+				} else {
+					h.kswap(u, n, false, r.Range(1000, 400000), fee)
+				}
 			}
 		}
 	}
 }
 
 // probes: three tiny experiments on the real keeper / msg server
-func probes(e *env, newHist func(min, max, dur uint64) *hist) (prefix, zero, create bool) {
+func probes(e *env, newHist func(min, max, dur uint64) *hist) (prefix, zero, create, stale bool) {
 	{
 		h := newHist(1, 10, 1000)
 		e.k.SetUserDappBond(h.c, l2types.UserDappBond{User: e.ustr[0], DappName: "probeab", Bond: coin("ukex", 5)})
@@ -724,6 +732,15 @@ func probes(e *env, newHist func(min, max, dur uint64) *hist) (prefix, zero, cre
 	{
 		h := newHist(1, 10, 1000)
 		create = h.create(0, "probem", 10000001, false, params{Denom: "probem", Ratio: "1", Fee: "0"})
+	}
+	{
+		h := newHist(1, 10, 100)
+		h.create(0, "probec", 1000000, false, params{Denom: "probec", LpOK: true, Ratio: "1", Postmint: 5000000, Fee: "0"})
+		h.tick(101)
+		h.kswap(1, "probec", false, 1000, "0")
+		if h.kconvert(1, "probec", "probec", "lp/probec", 1) {
+			stale = e.k.GetDapp(h.c, "probec").TotalBond.Amount.GT(e.bank.GetBalance(h.c, e.mod, "ukex").Amount)
+		}
 	}
 	return
 }
